@@ -15,7 +15,7 @@ type c06 struct{}
 func (c06) ID() string    { return "C06" }
 func (c06) Level() string { return "exploration" }
 func (c06) Rule() string {
-	return "a model of 3 services (each with a variable-bearing image, a relative build context and a relative bind mount) and a network, volume, file secret, environment-sourced secret and config: every assignment of the services to {main file, included file 1, included file 2} x nesting {flat, chain, diamond} x directory of each included file {same, sub-directory, sibling} x project_directory {absent, relative, absolute} x include syntax {short, long} x environment sources of the included project {none, own .env, one env_file, two env_files, one absolute env_file, a relative and an absolute env_file} x the variable defined in every subset of {parent environment, included environment} x content of the including project read after the include {none, override file, second document}; sibling includes with disjoint and clashing variables (each special case delivered by file name, by content, and by content under a name relative to the working directory); include cycles in 5 more path spellings; conflicting and identical redefinitions; include cycles of length 1..3; an environment-sourced config/secret inside an included file. Oracle: field-level equality with the pasted model (parent environment first, included environment for what it does not define; paths joined with the included project directory); conflict/cycle -> error. distinct = distinct scenario shapes"
+	return "a model of 3 services (each with a variable-bearing image, a relative build context and a relative bind mount) and a network, volume, file secret, environment-sourced secret and config: every assignment of the services to {main file, included file 1, included file 2} x nesting {flat, chain, diamond} x directory of each included file {same, sub-directory, sibling} x project_directory {absent, relative, absolute} x include syntax {short, long} x environment sources of the included project {none, own .env, one env_file, two env_files, one absolute env_file, a relative and an absolute env_file} x the variable defined in every subset of {parent environment, included environment} x content of the including project read after the include {none, override file, second document}; a variable the parent defines as the empty string against the included project's .env / env_file (also nested); sibling includes with disjoint and clashing variables (each special case delivered by file name, by content, and by content under a name relative to the working directory); include cycles in 5 more path spellings; conflicting and identical redefinitions; include cycles of length 1..3; an environment-sourced config/secret inside an included file. Oracle: field-level equality with the pasted model (parent environment first, included environment for what it does not define; paths joined with the included project directory); conflict/cycle -> error. distinct = distinct scenario shapes"
 }
 func (c06) Assumptions() []string {
 	return []string{"the pasted model is computed by the reference in props/c06.go from the statement"}
@@ -447,6 +447,32 @@ func c06special(c *core.Ctx) {
 			"inc.yaml":     "services:\n" + svc("x", "x") + "secrets:\n  envsec: {environment: SVAL}\n"},
 			check: func(im map[string]string) string { return "" }},
 	}
+	// a variable the parent environment defines as the empty string is defined: the included project's own files do not
+	// replace it (default .env, declared env_file, two levels down)
+	emptyWins := func(im map[string]string) string {
+		for n, img := range im {
+			if strings.HasPrefix(img, "i-") && img != "i--x" {
+				return fmt.Sprintf("service %s has image %q, expected \"i--x\" (V is defined, empty, by the parent environment)", n, img)
+			}
+		}
+		return ""
+	}
+	cases = append(cases,
+		sc{name: "parent-empty-vs-dotenv", env: map[string]string{"V": ""}, check: emptyWins, files: map[string]string{
+			"compose.yaml": "include:\n  - ./one/compose.yaml\nservices:\n" + svc("m", "m"), "one/.env": "V=file\n", "one/compose.yaml": "services:\n" + svc("one", "i-${V}-x")}},
+		sc{name: "parent-empty-vs-env_file", env: map[string]string{"V": ""}, check: emptyWins, files: map[string]string{
+			"compose.yaml": "include:\n  - path: ./one/compose.yaml\n    env_file: ./one.env\nservices:\n" + svc("m", "m"), "one.env": "V=file\n", "one/compose.yaml": "services:\n" + svc("one", "i-${V}-x")}},
+		sc{name: "parent-empty-nested", env: map[string]string{"V": ""}, check: emptyWins, files: map[string]string{
+			"compose.yaml":     "include:\n  - ./one/compose.yaml\nservices:\n" + svc("m", "m"),
+			"one/compose.yaml": "include:\n  - ./two/compose.yaml\nservices:\n" + svc("one", "i-${V}-x"), "one/.env": "V=one\n",
+			"one/two/compose.yaml": "services:\n" + svc("two", "i-${V}-x"), "one/two/.env": "V=two\n"}},
+		sc{name: "parent-undefined-vs-dotenv", check: func(im map[string]string) string {
+			if im["one"] != "i-file-x" {
+				return "service one has image " + im["one"] + ", expected i-file-x"
+			}
+			return ""
+		}, files: map[string]string{
+			"compose.yaml": "include:\n  - ./one/compose.yaml\nservices:\n" + svc("m", "m"), "one/.env": "V=file\n", "one/compose.yaml": "services:\n" + svc("one", "i-${V}-x")}})
 	// include cycles whose edges are spelled in other ways than ./file
 	for _, sp := range []struct{ name, fwd, back string }{
 		{"bare", "sub/a.yaml", "../compose.yaml"}, {"updown", "./d/../sub/a.yaml", "../d/../compose.yaml"},
